@@ -308,7 +308,11 @@ def run_e1_property(prop, tier, harness_module, log=print):
             else:
                 inconclusive.append(j)
             continue
-        if r['verdict'] == 'REFUTED':
+        if r['verdict'] == 'REFUTED' and not isinstance(r.get('args'), dict):
+            # e.g. CrossHair's NotDeterministic: no input to replay
+            harness_errors.append((j, 'refuted without a counterexample: '
+                                   + r['message'][:300], None))
+        elif r['verdict'] == 'REFUTED':
             rep, info = replay(j.module, j.function, r['args'], j.slice,
                                j.exclude)
             if rep:
